@@ -48,6 +48,7 @@ type ctx struct {
 	runErrs  int
 	ntrans   int
 	deferred []func()
+	forceCoq bool // thorough tier: push this (large) case through coqc regardless of the size limit
 }
 
 func main() {
@@ -78,9 +79,6 @@ func main() {
 		"sources: every .lua under _lua5.1-tests and _glua-tests, random programs (all statement kinds at all block positions, goto shapes, closures/upvalues, varargs, methods, constructors, both for loops), adversarial size ladders; " +
 		"plus opcode.go codec cases on boundary/random words. non-trivial = chunk with >= 8 instructions and at least one jump/skip, multi-word group or nested prototype (codec: word with all fields non-zero); distinct by Gallina term"
 	c := &ctx{w: w, rejected: map[string]int{}}
-	if a.Tier == "thorough" && os.Getenv("C07_COQ_MAX_FN") == "" {
-		coqMaxFn, coqMaxTotal = 30000, 120000
-	}
 	r := lib.NewRand(a.Seed)
 	if a.Replay != "" {
 		replay(c, a.Replay)
@@ -199,7 +197,7 @@ func (c *ctx) processPre(in input, src, name, class string, kf []string, setup f
 		}
 		ids, per, total = tr.grouped()
 	}
-	if root.maxInsts() > coqMaxFn || root.totalInsts() > coqMaxTotal {
+	if (root.maxInsts() > coqMaxFn || root.totalInsts() > coqMaxTotal) && !(c.forceCoq && root.maxInsts() <= 30000) {
 		// too large for coqc: the Go port decides (it is cross-checked with wf_proto on every smaller case)
 		c.goOnly++
 		if !gowf {
